@@ -1,0 +1,16 @@
+//go:build verif
+
+package ha
+
+// Verification hook for property C14 (timer-fire races).  Add-only: lets the
+// harness hold the controller's own mutex for a moment, exactly as any slow
+// in-package holder does (an OnFailoverEvent handler is invoked with the mutex
+// held; Status() holds it while querying the monitor), so that a fired
+// time.AfterFunc function and an incoming health event / operator command queue
+// on it in an order the harness chooses.  It does not change behaviour.
+
+// VerifC14Lock takes the controller mutex (write side).
+func (c *FailoverController) VerifC14Lock() { c.mu.Lock() }
+
+// VerifC14Unlock releases the mutex taken by VerifC14Lock.
+func (c *FailoverController) VerifC14Unlock() { c.mu.Unlock() }
